@@ -43,7 +43,7 @@ def trav_queries(nv, starts, unis, modes, kinds=("bft", "dftr", "dfti"), via="-"
                     yield "%s %s V%d %d %d %s %s %s" % (t, u, s, d, k, via, res, listmode)
 
 
-def search_queries(nv, starts, unis, vals=(0, 1, 2)):
+def search_queries(nv, starts, unis, vals=(0, 1, 2, 5)):
     for s in starts:
         for u in unis:
             for t in ("bfs", "dfsr", "dfsi"):
@@ -130,7 +130,7 @@ class TravBase(Check):
             for i in range(nv):
                 r = rng.random()
                 if r < 0.6:
-                    attrs[i] = rng.choice([0, 1, 1, 2])
+                    attrs[i] = rng.choice([0, 1, 1, 2, 5])
                 if rng.random() < 0.3:
                     classes[i] = "FV"
                 elif rng.random() < 0.2:
